@@ -96,7 +96,7 @@ def scene_xml(c):
         xml = ET.tostring(root, encoding="unicode")
     if c.get("adhesion"):
         root = ET.fromstring(xml)
-        for g in root.iter("geom"):
+        for g in root.find("worldbody").iter("geom"):      # not the <geom> path elements of spatial tendons
             if g.get("contype") != "0" and rng.random() < 0.3:
                 g.set("adhesion", model.f(np.exp(rng.uniform(np.log(0.05), np.log(3)))))
         xml = ET.tostring(root, encoding="unicode")
@@ -260,8 +260,15 @@ def monitor(L, m, d, P, witness, tag):
     fmax = float(np.abs(force[np.isfinite(force)]).max(initial=0))
     eps = 1e-9 * fmax
     bad = efcrows.admissibility(blocks, force, con, eps)
-    for sig, info in bad[:3]:
-        viol(sig, eps=eps, **info)
+    dual = int(m.opt["solver"]) == int(E.mjSOL_PGS) or int(m.opt["noslip_iterations"]) > 0
+    seen_sig = set()
+    for sig, info in bad:
+        if sig.startswith("elliptic-contact-friction-outside-cone"):
+            # forces come from the dual path (PGS / noslip: per-contact QCQP + ellipsoid projection) or from the primal state function
+            sig = "%s:%s:condim%d" % (sig, "after-dual-qcqp" if dual else "primal-state-function", info["dim"])
+        if sig not in seen_sig and len(seen_sig) < 4:
+            seen_sig.add(sig)
+            viol(sig, eps=eps, noslip=int(m.opt["noslip_iterations"]), solver=int(m.opt["solver"]), **info)
     kinds = {}
     for b in blocks:
         kinds[b.kind] = kinds.get(b.kind, 0) + 1
